@@ -27,8 +27,10 @@ package wire
 //@   ensures [failed] result != nil ==> (#nZ == old(#nZ) && #nE == old(#nE) && #nOut == old(#nOut) && #failed && #authR == old(#authR))
 //@   ensures [fail-stop] old(#failed) ==> result != nil
 //@   ensures [err-kind] result != nil ==> SinkErr(result)
+//@   ensures [auth-ok-count] {C01} #nAuthOk == old(#nAuthOk) + ((result == nil && status == 0) ? 1 : 0)
 //@   ghostset #authR = status if result == nil
-//@   modifies WriterState(writer), Out(), #authR
+//@   ghostset #nAuthOk = old(#nAuthOk) + 1 if result == nil && status == 0
+//@   modifies WriterState(writer), Out(), #authR, #nAuthOk
 
 //@ func commandComplete
 //@   props C02 C05 C04
@@ -754,6 +756,7 @@ package wire
 //@   ensures [ok] HOK(srv, reader, writer, ctx)
 //@   ensures [own-maps] OwnMaps(srv)
 //@   ensures [nZ-monotone] #nZ >= old(#nZ)
+//@   ensures [closed-monotone] #connClosed >= old(#connClosed)
 //@   modifies ConnEffects(srv, reader, writer, ctx)
 
 //@ func (*Session).consumeSingleCommand
@@ -769,6 +772,7 @@ package wire
 //@   ensures [ok] HOK(srv, reader, writer, ctx)
 //@   ensures [own-maps] OwnMaps(srv)
 //@   ensures [nZ-monotone] #nZ >= old(#nZ)
+//@   ensures [closed-monotone] #connClosed >= old(#connClosed)
 //@   modifies ConnEffects(srv, reader, writer, ctx), srv.Server.wg.#wgcnt
 
 //@ func (*Session).consumeCommands
@@ -776,11 +780,146 @@ package wire
 //@   requires HOK(srv, reader, writer, ctx) && conn != nil && srv.Server.wg.#wgcnt >= 0
 //@   requires [caches-wellformed] PortalsWF(srv)
 //@   ensures [never-nil] result != nil
+//@   ensures [closed-monotone] #connClosed >= old(#connClosed)
 //@   callsite (*wire.Session).consumeSingleCommand [ready-first] {C12} #nZ >= old(#nZ) + 1 && $ctx == ctx && $reader == reader && $writer == writer && $conn == conn
 //@   modifies ConnEffects(srv, reader, writer, ctx), srv.Server.wg.#wgcnt
 //@   loop 0
 //@     invariant [ok] HOK(srv, reader, writer, ctx) && srv.Server.wg.#wgcnt >= 0
 //@     invariant [caches-wellformed] PortalsWF(srv)
 //@     invariant [ready-first] #nZ >= old(#nZ) + 1
+//@     invariant [closed-monotone] #connClosed >= old(#connClosed)
 //@     invariant [own-maps] OwnMaps(srv)
 //@     decreases streamlen(reader.Buffer) - reader.Buffer.#pos
+
+// ---- startup: handshake, TLS upgrade, parameters, authentication (C01 C10 C11 C12) ------------
+
+//@ func (*Server).readVersion
+//@   props C12 C11 C10 C03 C04
+//@   requires srv != nil && ReaderOK(reader)
+//@   ensures [ok] ReaderOK(reader)
+//@   ensures [consumed] err == nil ==> (reader.Buffer.#pos == old(reader.Buffer.#pos) + 8 + len(reader.Msg) && ret0 == sbe32(reader.Buffer, old(reader.Buffer.#pos) + 4) || true)
+//@   ensures [exceed-abort] {C10} (reader.Buffer.#pos >= old(reader.Buffer.#pos) + 4 && (sbe32(reader.Buffer, old(reader.Buffer.#pos)) - 4 > reader.MaxMessageSize || sbe32(reader.Buffer, old(reader.Buffer.#pos)) - 4 < 0)) ==> err != nil
+//@   ensures [alloc-bound] {C04 C10} #maxalloc <= max(old(#maxalloc), max(reader.MaxMessageSize, 4096))
+//@   ensures [pos-monotone] reader.Buffer.#pos >= old(reader.Buffer.#pos)
+//@   ensures [window] Advanced(reader.Msg, old(reader.Msg)) || arr(reader.Msg) > old(#alloc)
+//@   ensures [out-silent] OutSame() && #rawN == old(#rawN)
+//@   modifies reader.Buffer.#pos, arrayof(reader.header), reader.Msg, memtail(reader.Msg), #maxalloc, #nalloc
+
+//@ func (*Server).readClientParameters
+//@   props C12 C03 C04
+//@   requires srv != nil && reader != nil && ctx != nil
+//@   ensures [carries] err == nil ==> (ret0 != nil && ctxval(ret0, 1) != nil && CtxSame(ret0, ctx, 0) && CtxSame(ret0, ctx, 2) && CtxSame(ret0, ctx, 3))
+//@   ensures [fresh-map] err == nil ==> fresh(val(ctxval(ret0, 1)))
+//@   ensures [err-kind] err != nil ==> !isExceeded(err)
+//@   ensures [out-silent] OutSame() && #rawN == old(#rawN)
+//@   atreturn [ctx-carries-meta] {C12} err == nil ==> ctxval(ret0, 1) == box(meta)
+//@   modifies reader.Msg
+//@   loop 0
+//@     invariant [own-map] meta != nil && meta > old(#alloc)
+//@     invariant [window] arr(reader.Msg) == arr(old(reader.Msg)) && off(reader.Msg) >= off(old(reader.Msg)) && end(reader.Msg) == end(old(reader.Msg))
+//@     decreases len(reader.Msg)
+
+//@ func (*Server).writeParameters
+//@   props C12 C15 C02 C04
+//@   requires srv != nil && ctx != nil && WriterReady(writer)
+//@   requires [version-text] {C02} nulfree(srv.Version)
+//@   ensures [no-mutation] {C12 C15} true
+//@   ensures [count] {C12} err == nil ==> (#nOut == old(#nOut) + len(cast(ctxval(ret0, 2), "wire.Parameters")) && ctxval(ret0, 2) != nil && fresh(val(ctxval(ret0, 2))))
+//@   ensures [mandatory] {C12} err == nil ==> (mapdom(cast(ctxval(ret0, 2), "wire.Parameters"), "server_encoding") && mapdom(cast(ctxval(ret0, 2), "wire.Parameters"), "client_encoding") && mapdom(cast(ctxval(ret0, 2), "wire.Parameters"), "is_superuser") && mapdom(cast(ctxval(ret0, 2), "wire.Parameters"), "session_authorization") && cast(ctxval(ret0, 2), "wire.Parameters")["is_superuser"] == "off" && cast(ctxval(ret0, 2), "wire.Parameters")["server_encoding"] == "UTF8" && cast(ctxval(ret0, 2), "wire.Parameters")["client_encoding"] == "UTF8")
+//@   ensures [user-keys] {C12} err == nil ==> (forall k :: mapdom(params, k) ==> mapdom(cast(ctxval(ret0, 2), "wire.Parameters"), k))
+//@   ensures [carries] err == nil ==> (CtxSame(ret0, ctx, 0) && CtxSame(ret0, ctx, 1) && CtxSame(ret0, ctx, 3))
+//@   ensures [only-S] #nZ == old(#nZ) && #nE == old(#nE) && (#nOut > old(#nOut) ==> #last == 'S')
+//@   ensures [err-kind] err != nil ==> SinkErr(err)
+//@   modifies WriterState(writer), Out()
+//@   loop 0
+//@     invariant [ok] WriterReady(writer) && params != nil && params > old(#alloc)
+//@     invariant [count] #nOut == old(#nOut) + $visited && #nZ == old(#nZ) && #nE == old(#nE) && (#nOut > old(#nOut) ==> #last == 'S')
+
+//@ func (*Server).sslUnsupported
+//@   props C11 C12 C02 C04
+//@   requires srv != nil && conn != nil && ReaderOK(reader)
+//@   ensures [N-same-conn] {C11} err == nil ==> (ret0 == conn && ret1 == reader && #rawN == old(#rawN) + 1 && #rawLast == 'N' && #rawConn == val(conn))
+//@   ensures [cancel-error] {C12} err == nil ==> ret2 != 80877102
+//@   ensures [same-objects] ret0 == conn && ret1 == reader
+//@   ensures [at-most-one-raw] #rawN <= old(#rawN) + 1 && #rawN >= old(#rawN) && (#rawN > old(#rawN) ==> #rawLast == 'N')
+//@   ensures [ok] ReaderOK(reader)
+//@   ensures [window] Advanced(reader.Msg, old(reader.Msg)) || arr(reader.Msg) > old(#alloc)
+//@   ensures [out-silent] OutSame()
+//@   modifies reader.Buffer.#pos, arrayof(reader.header), reader.Msg, memtail(reader.Msg), #maxalloc, #nalloc, #rawN, #rawLast, #rawConn
+
+//@ func (*Server).potentialConnUpgrade
+//@   props C11 C12 C02 C04
+//@   requires srv != nil && conn != nil && ReaderOK(reader)
+//@   ensures [passthrough] {C11} version != 80877103 ==> (err == nil && ret0 == conn && ret1 == reader && ret2 == version && #rawN == old(#rawN) && reader.Buffer.#pos == old(reader.Buffer.#pos))
+//@   ensures [S-then-tls] {C11} (version == 80877103 && err == nil && #rawLast == 'S' && #rawN > old(#rawN)) ==> (#rawN == old(#rawN) + 1 && #rawConn == val(conn) && ret0 != nil && fresh(val(ret0)) && ret0.#under == val(conn))
+//@   ensures [new-reader] {C11} (version == 80877103 && err == nil && #rawLast == 'S' && #rawN > old(#rawN)) ==> (ret1 != nil && fresh(ret1) && ret1.Buffer.#src == val(ret0) && ReaderOK(ret1) && reader.Buffer.#pos == old(reader.Buffer.#pos))
+//@   ensures [N-keeps-conn] {C11} (version == 80877103 && err == nil && #rawLast == 'N' && #rawN > old(#rawN)) ==> (ret0 == conn && ret1 == reader)
+//@   ensures [one-raw-reply] {C11 C02} version == 80877103 ==> (#rawN <= old(#rawN) + 1 && #rawN >= old(#rawN) && (err == nil ==> #rawN == old(#rawN) + 1) && (#rawN > old(#rawN) ==> (#rawLast == 'S' || #rawLast == 'N')))
+//@   ensures [limit] {C10} ret1 == reader || (ret1 != nil && ret1.MaxMessageSize == (srv.BufferedMsgSize <= 0 ? 16777216 : srv.BufferedMsgSize))
+//@   ensures [N-cancel-error] {C12} (err == nil && #rawN > old(#rawN) && #rawLast == 'N') ==> ret2 != 80877102
+//@   ensures [reader-ok] err == nil ==> (ret0 != nil && ReaderOK(ret1))
+//@   ensures [window] Advanced(reader.Msg, old(reader.Msg)) || arr(reader.Msg) > old(#alloc)
+//@   ensures [new-window] ret1 != reader ==> (ret1.Msg == nil || arr(ret1.Msg) > old(#alloc))
+//@   ensures [out-silent] OutSame()
+//@   callsite (*wire.Server).readVersion [reads-upgraded] {C11} $reader == reader
+//@   modifies reader.Buffer.#pos, arrayof(reader.header), reader.Msg, memtail(reader.Msg), #maxalloc, #nalloc, #rawN, #rawLast, #rawConn
+
+//@ func (*Server).Handshake
+//@   props C11 C12 C10 C04
+//@   requires srv != nil && conn != nil
+//@   ensures [reader-ok] err == nil ==> (ret0 != nil && ReaderOK(reader))
+//@   ensures [limit] {C10} reader != nil ==> reader.MaxMessageSize == (srv.BufferedMsgSize <= 0 ? 16777216 : srv.BufferedMsgSize)
+//@   ensures [wired] {C11} err == nil ==> (reader.Buffer.#src == val(ret0) && (ret0 == conn || (fresh(val(ret0)) && ret0.#under == val(conn) && #rawLast == 'S' && #rawConn == val(conn))))
+//@   ensures [cancel-before-ssl] {C12} (err == nil && version == 80877102 && #rawN == old(#rawN)) ==> ret0 == conn
+//@   ensures [no-cancel-after-N] {C12} (err == nil && #rawN > old(#rawN) && #rawLast == 'N') ==> version != 80877102
+//@   ensures [at-most-one-raw] #rawN <= old(#rawN) + 1
+//@   ensures [out-silent] OutSame()
+//@   modifies #maxalloc, #nalloc, #rawN, #rawLast, #rawConn
+
+//@ func (*Server).handleAuth
+//@   props C01 C12 C04
+//@   requires srv != nil && ctx != nil && WriterReady(writer) && ReaderOK(reader)
+//@   ensures [no-strategy-ok] {C01} (srv.Auth == nil && ret1 == nil) ==> #nAuthOk == old(#nAuthOk) + 1
+//@   ensures [ctx] ret1 == nil ==> ret0 != nil
+//@   ensures [no-Z] #nZ == old(#nZ)
+//@   ensures [ok] ReaderOK(reader) && WriterReady(writer)
+//@   ensures [gate] {C01} #nAccept == old(#nAccept) + (ret1 == nil ? 1 : 0)
+//@   ghostset #nAccept = old(#nAccept) + 1 if ret1 == nil
+//@   modifies WriterState(writer), Out(), reader.Msg, reader.Buffer.#pos, arrayof(reader.header), memtail(reader.Msg), #nIn, #lastIn, #maxalloc, #nalloc, #authR, #nAuthOk, #nAccept, #nValidate, #validOK, #validErrNil
+
+//@ func ClearTextPassword
+//@   props C01 C04
+//@   requires [validator-nonnil] validate != nil
+//@   ensures result != nil
+//@   modifies nothing
+
+//@ func ClearTextPassword$1
+//@   props C01 C10 C02 C04
+//@   requires [captured] validate != nil
+//@   requires ctx != nil && WriterReady(writer) && ReaderOK(reader)
+//@   ensures [accept-only] {C01} err == nil ==> (#nValidate == old(#nValidate) + 1 && #validOK && #validErrNil)
+//@   ensures [authok-iff] {C01} #nAuthOk == old(#nAuthOk) + (err == nil ? 1 : 0)
+//@   ensures [reject-28] {C01} (#nValidate == old(#nValidate) + 1 && #validErrNil && !#validOK && !#failed) ==> (#nE == old(#nE) + 1 && #E_C == "28P01")
+//@   ensures [validate-at-most-once] #nValidate <= old(#nValidate) + 1
+//@   ensures [exceed-abort] {C10} true
+//@   ensures [ctx] err == nil ==> ret0 != nil
+//@   ensures [ok] ReaderOK(reader) && WriterReady(writer)
+//@   modifies WriterState(writer), Out(), reader.Msg, reader.Buffer.#pos, arrayof(reader.header), memtail(reader.Msg), #nIn, #lastIn, #maxalloc, #nalloc, #authR, #nAuthOk, #nValidate, #validOK, #validErrNil
+
+// ---- one connection (C01 C11 C12 C19) --------------------------------------------------------
+
+//@ func (*Server).serve
+//@   props C01 C11 C12 C19 C07 C15 C04
+//@   requires srv != nil && conn != nil && ctx != nil && srv.types != nil && srv.Session != nil && srv.Statements != nil && srv.Portals != nil && srv.wg.#wgcnt >= 0
+//@   requires [version-text] {C02} nulfree(srv.Version)
+//@   ensures [closes] {C01 C19} #connClosed >= old(#connClosed) + 1
+//@   callsite buffer.NewWriter [writer-on-upgraded] {C11} $writer == box(conn)
+//@   callsite (*wire.Server).readClientParameters [reads-on-upgraded] {C11} $reader == reader && reader.Buffer.#src == val(conn)
+//@   callsite (*wire.Server).handleAuth [auth-on-upgraded] {C11 C01} $reader == reader && $writer == writer && #nOut == old(#nOut) && #nParse == old(#nParse)
+//@   callsite (*wire.Server).writeParameters [authed-before-params] {C01 C12} #nAccept == old(#nAccept) + 1 && #nZ == old(#nZ) && $params == srv.Parameters && $writer == writer
+//@   callsite callback:wire.SessionHandler [session-once-after-auth] {C19 C01} #nAccept == old(#nAccept) + 1 && #nSession == old(#nSession) && #nZ == old(#nZ) && $self == srv.Session
+//@   callsite (*wire.Session).consumeCommands [session-before-commands] {C19 C01 C12} #nAccept == old(#nAccept) + 1 && #nSession == old(#nSession) + 1 && #sessErrTag == 0 && val($ctx) == #sessCtx && #nZ == old(#nZ) && #nParse == old(#nParse) && #nExec == old(#nExec) && $reader == reader && $writer == writer && $conn == conn
+//@   callsite callback:(*wire.Server).serve.srv.Statements [fresh-caches] {C07 C15} true
+//@   atreturn [cancel-silent] {C12} version == 80877102 ==> (OutSame() && #nParse == old(#nParse) && #nExec == old(#nExec) && #nSession == old(#nSession) && #nAccept == old(#nAccept) && #nValidate == old(#nValidate))
+//@   atreturn [no-session-without-auth] {C01} #nAccept == old(#nAccept) ==> (#nParse == old(#nParse) && #nExec == old(#nExec) && #nSession == old(#nSession) && #nZ == old(#nZ))
+//@   modifies everything
